@@ -31,7 +31,7 @@ Chk(name, e) == name \in Relax \/ e
 TCfg == [originOf |-> [r \in Req |-> IF r <= NReq THEN T.cfg.originOf[r] ELSE ""],
          maxConn |-> T.cfg.maxConn, maxKeep |-> T.cfg.maxKeep, expiry |-> T.cfg.expiry,
          poolTO |-> [r \in Req |-> IF r <= NReq THEN T.cfg.poolTO[r] ELSE NoTimeout],
-         mux |-> SeqToSet(T.cfg.mux), muxGuess |-> SeqToSet(T.cfg.muxGuess)]
+         mux |-> SeqToSet(T.cfg.mux), muxGuess |-> SeqToSet(T.cfg.muxGuess), noKeep |-> SeqToSet(T.cfg.noKeep)]
 
 TInit ==
   /\ tid \in 1..Len(Traces)
@@ -88,23 +88,23 @@ PassCands(q, a0, st0, o) ==
      ELSE { [cur |-> o.pool, asg |-> [r \in Req |-> IF r \in unas THEN f[r] ELSE a0[r]], cl |-> cl,
              nx |-> nextc + Cardinality(newIds), st |-> st, org |-> org] : f \in [unas -> tgt] }
 
-RelOK(q, a0, st0, S) == Chk("pass", PassRel(pool, a0, q, S.cur, S.asg, S.cl, clock, st0))
+RelOK(q, a0, st0, S) == Chk("pass", PassRel(pool, a0, q, S.cur, S.asg, S.cl, clock, st0, Dev("KeepaliveCountsAll")))
 
 TCall(r) == \E S \in PassCands(Append(queue, r), asg, cst, Ev.obs) :
               CallW(r, S) /\ RelOK(Append(queue, r), asg, cst, S)
 TRetry(r) == \E S \in PassCands(queue, asg, cst, Ev.obs) :
               RetryW(r, S) /\ RelOK(queue, asg, cst, S)
 TLeave(r) == LET a0 == [asg EXCEPT ![r] = None] IN
-             \E S \in PassCands(SeqRemove(queue, r), a0, LeaveSt(r), Ev.obs) :
-              LeaveW(r, S) /\ RelOK(SeqRemove(queue, r), a0, LeaveSt(r), S)
+             \E st0 \in LeaveSts(r) : \E S \in PassCands(SeqRemove(queue, r), a0, st0, Ev.obs) :
+              LeaveW(r, S) /\ RelOK(SeqRemove(queue, r), a0, st0, S)
 
 Faulty(r) == flag[r] = "fail" /\ (ConnectFail(r) \/ EstabFail(r) \/ OpFail(r))
 
 TSub(r) ==
   \/ (TCall(r) \/ TRetry(r) \/ TLeave(r) \/ CloseEvicted(r) \/ StartWait(r) \/ Wake(r) \/ PoolTimeout(r)
       \/ Enter(r) \/ ReqLock(r) \/ ConnectOk(r) \/ Established(r) \/ Activate(r)
-      \/ Send(r) \/ RecvHead(r) \/ ReadAll(r) \/ Abandon(r) \/ ConnRelease(r)
-      \/ CancelDeliver(r) \/ ReleaseStream(r)) /\ UNCHANGED flag
+      \/ Send(r) \/ (Ev.got /\ RecvHead(r)) \/ (Ev.bend = "full" /\ ReadAll(r)) \/ (Ev.bend = "partial" /\ Abandon(r)) \/ ConnRelease(r)
+      \/ CancelDeliver(r) \/ ReleaseStream(r) \/ NativeCancelInShield(r)) /\ UNCHANGED flag
   \/ Faulty(r) /\ flag' = [flag EXCEPT ![r] = "none"]
 
 (***************************************************************************)
@@ -118,22 +118,39 @@ SubStep ==      \* one more Pool action of the request that ran in this quantum
   /\ TSub(Ev.r)
   /\ k' = k + 1 /\ UNCHANGED <<tid, l>>
 
+EndSub ==       \* at the end of the execution everybody may catch up with invisible steps
+  /\ l <= N /\ Ev.e = "End" /\ k < K
+  /\ \E r \in TReq : (StartWait(r) \/ Wake(r) \/ Enter(r) \/ Send(r)) /\ UNCHANGED flag
+  /\ k' = k + 1 /\ UNCHANGED <<tid, l>>
+
+(* C07 at the end of an execution whose environment has completed every operation: whoever
+   has not returned is legitimately blocked - held by the caller's own script, or waiting
+   while no connection can take it, the pool is full and nothing is idle *)
+EndOK ==
+  \A r \in TReq :
+     \/ pc[r] \in Terminal \cup {"init"}
+     \/ pc[r] = "hold" /\ r \in SeqToSet(Ev.gated)
+     \/ r \in SeqToSet(Ev.netblocked)      \* blocked in a network read the peer never answers
+     \/ pc[r] = "parked" /\ asg[r] = None /\ ~Serviceable(r)
+
 EnvStep ==      \* the driver's own stimuli
   /\ l <= N /\ k = 0
-  /\ \/ /\ Ev.e = "Tick" /\ clock' = Ev.t
+  /\ \/ /\ Ev.e = "PoolClose" /\ PoolCloseAll /\ UNCHANGED flag
+     \/ /\ Ev.e = "Tick" /\ clock' = Ev.t
         /\ UNCHANGED <<cfg, pool, nextc, cvars, evicted, queue, rvars, budget, pclosed, flag>>
      \/ /\ Ev.e = "PeerClose" /\ cdead' = [cdead EXCEPT ![Ev.c] = TRUE]
         /\ UNCHANGED <<cfg, pool, nextc, cst, corg, cmux, cexp, cerr, cstr, ccnt, cexch, cwire, evicted, queue, rvars, clock, budget, pclosed, flag>>
      \/ /\ Ev.e = "Fault" /\ flag' = [flag EXCEPT ![Ev.r] = "fail"]
         /\ UNCHANGED vars
-     \/ /\ Ev.e = "Cancel" /\ creq' = [creq EXCEPT ![Ev.r] = TRUE]
+     \/ /\ Ev.e = "Cancel" /\ creq' = [creq EXCEPT ![Ev.r] = Ev.style]
         /\ UNCHANGED <<cfg, pool, nextc, cvars, evicted, queue, pc, asg, tocl, nxt, exc, sent, got, wdl, clock, budget, pclosed, flag>>
   /\ k' = 1 /\ UNCHANGED <<tid, l>>
 
 EndStep ==      \* commit: the model projects to what was logged
   /\ l <= N
-  /\ Ev.e = "Q" \/ k = 1
+  /\ Ev.e \in {"Q", "End"} \/ k = 1
   /\ Match(Ev.obs) /\ Props
+  /\ Ev.e = "End" => Chk("i.NoStuckCaller", EndOK)
   /\ Ev.e = "Q" /\ Ev.r \in TReq =>
         Chk("ret", IF Ev.ret = "" THEN pc[Ev.r] \notin Terminal ELSE pc[Ev.r] = RetPc(Ev.ret))
   /\ l' = l + 1 /\ k' = 0
@@ -142,7 +159,7 @@ EndStep ==      \* commit: the model projects to what was logged
                                THEN ~Ev.obs.cs[c].av ELSE cerr[c]]
   /\ UNCHANGED <<cfg, pool, nextc, cst, corg, cmux, cexp, cdead, cstr, ccnt, cexch, cwire, evicted, queue, rvars, clock, budget, pclosed, tid, flag>>
 
-TNext == SubStep \/ EnvStep \/ EndStep
+TNext == SubStep \/ EndSub \/ EnvStep \/ EndStep
 TSpec == TInit /\ [][TNext]_<<vars, tvars>>
 
 (***************************************************************************)
